@@ -1078,6 +1078,64 @@ impl<'tcx> Dumper<'tcx> {
 
     // ------------------------------------------------------------------ top level
 
+
+    /// Public names: every path under which an item of this crate can be named from outside (items in public
+    /// modules and `pub use` re-exports, followed transitively through re-exported modules), with the item's
+    /// definition path.  Lets the analysis identify items by the names users know them by when code moves
+    /// between modules.
+    fn pubpaths(&mut self) -> J {
+        let tcx = self.tcx;
+        let mut out: Vec<J> = Vec::new();
+        let mut seen: std::collections::HashSet<(String, DefId)> = std::collections::HashSet::new();
+        // (module def, its public path)
+        let mut work: Vec<(DefId, String, usize)> = vec![(LOCAL_CRATE.as_def_id(), String::new(), 0)];
+        while let Some((m, mpath, depth)) = work.pop() {
+            if depth > 8 {
+                continue;
+            }
+            let Some(lm) = m.as_local() else { continue };
+            let mut children: Vec<(String, DefId)> = Vec::new();
+            // items defined in the module
+            let (hm, _, _) = tcx.hir_get_module(rustc_span::def_id::LocalModDefId::new_unchecked(lm));
+            for &iid in hm.item_ids.iter() {
+                let d = iid.owner_id.to_def_id();
+                let kind = tcx.def_kind(d);
+                if matches!(kind, DefKind::Use | DefKind::Impl { .. } | DefKind::ExternCrate | DefKind::GlobalAsm | DefKind::ForeignMod) {
+                    continue;
+                }
+                if !tcx.visibility(d).is_public() {
+                    continue;
+                }
+                if let Some(name) = tcx.opt_item_name(d) {
+                    children.push((name.to_string(), d));
+                }
+            }
+            // re-exports
+            for ch in tcx.module_children_local(lm).iter() {
+                if !ch.vis.is_public() {
+                    continue;
+                }
+                if let Some(d) = ch.res.opt_def_id() {
+                    if d.is_local() {
+                        children.push((ch.ident.name.to_string(), d));
+                    }
+                }
+            }
+            for (name, d) in children {
+                let p = if mpath.is_empty() { name.clone() } else { format!("{}::{}", mpath, name) };
+                if !seen.insert((p.clone(), d)) {
+                    continue;
+                }
+                let kind = tcx.def_kind(d);
+                out.push(J::obj().set("public", J::s(&p)).set("def", J::s(self.path(d))).set("kind", J::s(format!("{:?}", kind))));
+                if matches!(kind, DefKind::Mod) {
+                    work.push((d, p, depth + 1));
+                }
+            }
+        }
+        J::Arr(out)
+    }
+
     fn dump(&mut self, fmt: Vec<J>) -> J {
         let tcx = self.tcx;
         let owners: Vec<LocalDefId> = tcx.hir_body_owners().collect();
@@ -1108,6 +1166,7 @@ impl<'tcx> Dumper<'tcx> {
         let adts = self.dump_adts();
         let impls = self.dump_impls();
         let traits = self.dump_traits();
+        let pubpaths = self.pubpaths();
         let instances = self.walk_instances(&roots);
         let mut consts = Vec::new();
         for ld in tcx.hir_crate_items(()).definitions() {
@@ -1159,6 +1218,7 @@ impl<'tcx> Dumper<'tcx> {
             .set("bodies", J::Arr(bodies))
             .set("instances", instances)
             .set("fmt", J::Arr(fmt))
+            .set("pubpaths", pubpaths)
     }
 }
 
